@@ -59,8 +59,23 @@ RULE = ("random bounded models (gen_model, autonomous, 2-4 states, 1-4 parameter
         "with the same names, copy.deepcopy of a loss object; all four combinations of target_param / target_state; t0 != 0; "
         "theta as list / tuple / ndarray / numpy scalars; y, x0, t, weights, spread as float or int containers; 15 % of the scripts on a grid "
         "with replicate times, 15 % on a grid moved far from the time origin.  A history case "
-        "is non-trivial when at least two calls were judged against the reference for the values the object currently holds.")
-ASSUMPTIONS = ["an IntegrationError raised by an evaluation is not judged when scipy's own lsoda (scipy.integrate.ode on the oracle's right-hand "
+        "is non-trivial when at least two calls were judged against the reference for the values the object currently holds.  "
+        "ROUND D.  CLOCK cases (160 quick): models whose rates DEPEND ON t - losscommon.TD_CATALOGUE (SIR import / lock-down / vaccination "
+        "campaign / dosing chain / seeded state) with a window shape or a SMOOTH shape (seasonal forcing (1 + cos(2 pi (t - a)/P))/2, sin^2, a "
+        "Lorentz pulse), random models with periodic rates, first-order models with time-dependent coefficients (weights 6:3:2, 1 autonomous "
+        "control) - on a loss object whose clock does not start at zero: `shifted` = t0, the observation times and the window moved by tau in "
+        "{0.37, -1.75, 2.5, 7, 17.3, 30, 30.25, -13.2, 52.3, -50, 365.25, 1234.56, -400.6} (non-integer only for the random models, whose "
+        "forcing has period 1), `shifted-repeated` (with replicate times), `far` (+-738000 .., smooth shapes only); cost, residual, costIV, "
+        "all five classes, reference integrated in the real time (tags rates-depend-on-t:t0!=0, clock:t0=*).  A fifth of the HISTORY scripts "
+        "run on such a model with a shifted clock (shared with C07).  LARGE models (12 quick; losscommon.LARGE_CATALOGUE, num_state x "
+        "num_param = 104 .. 112) and HEAD-COUNT models (24 quick; SIR at N = 1e6 / 1e8, SIR_norm with beta = 5e-9), half of the latter and an "
+        "eighth of the clock cases with weights / spreads of EXTREME but valid magnitude (weights x 1e-6 / 1e-3 / 1e4, sigma x 1e-3 / 1e4, "
+        "Gamma shape and NegBinom k x 1e-2 / 1e3).  Tolerances are relative per entry: the absolute floor of the cost tolerance is "
+        "min(1e-3, cost when the prediction is off by a thousandth), the residual is compared entry by entry relative to |w| (1 + |yhat|).")
+ASSUMPTIONS = ["time-dependent models: a wrong cost / residual is reported only after scipy's own lsoda (oracle right-hand side, pygom's tolerances, no "
+               "pygom) has been seen to be within 1e-8 (1+|ref|) of the reference on the instance - observed once: a right-hand side that is exactly "
+               "zero at x0 until a dosing window opens (zero initial state and a zero rate) lets lsoda grow its step and stride over the window",
+               "an IntegrationError raised by an evaluation is not judged when scipy's own lsoda (scipy.integrate.ode on the oracle's right-hand "
                "side, no pygom) fails on the same instance (observed: derivative exactly zero at x0, far negative t0, increments that are not "
                "representable): tagged unjudged:scipy-lsoda-refuses-this-instance; on grids far from the origin a wrong cost is reported only "
                "after scipy's own lsoda has been seen to be within 1e-8 (1+|ref|) of the reference on the instance",
